@@ -57,7 +57,7 @@ CHECKS = {
     ),
     "C03": dict(
         verus=[dict(unit="framing")],
-        kani=[dict(crate="nexrad-decode", files=["drd.rs", "w03.rs"], role="witness", harnesses=[
+        kani=[dict(crate="nexrad-decode", files=["drd.rs", "w03.rs"], role="witness", tag="-witness", harnesses=[
             dict(name="w03_two_frames", bounded="2 frames, symbolic type codes", what="two whole frames -> two messages in order, opaque placeholders for types without decoder, reader at the end"),
             dict(name="w03_truncation", bounded="1 frame, cuts at 0/1/2403 body bytes; tails of 1/27 bytes", what="cut inside a body is an error; trailing fragment < header ignored"),
         ])],
